@@ -369,12 +369,12 @@ func (st *dfs) evaluate(g, q []*Statement, cands map[string]map[string]bool, mu 
 		if isAutomorphism(mup) {
 			return mu
 		}
+		// Compose the mappings, mu = mup ∘ mu.
 		for b, x := range mu {
-			if _, ok := mup[b]; !ok {
-				mup[b] = x
+			if y, ok := mup[x]; ok {
+				mu[b] = y
 			}
 		}
-		mu = mup
 	}
 	return mu
 }
